@@ -91,7 +91,7 @@ def cases(prop, seed):
         add("PromoleculeDensity((numbers, positions)).rho(points)", lambda: (lambda z, p, q: PromoleculeDensity((z, p)).rho(q), (Z.copy(), P.copy(), pts.copy()), {}))
         add("StockholderWeight.from_arrays(...).weights(points)", lambda: (lambda z, p, z2, p2, q: StockholderWeight.from_arrays(z, p, z2, p2).weights(q), (Z[:3].copy(), P[:3].copy(), Z[3:].copy(), P[3:].copy() + 3.0, pts.copy()), {}))
         add("PromoleculeDensity((other numbers, positions)).rho(points)", lambda: (lambda z, p, q: PromoleculeDensity((z, p)).rho(q), (np.array([17, 7]), P[:2].copy(), pts.copy()), {}))
-        add("StockholderWeight.from_arrays(..., background=0.01).weights(points)", lambda: (lambda z, p, z2, p2, q: StockholderWeight.from_arrays(z, p, z2, p2, background=0.01).weights(q), (Z[:3].copy(), P[:3].copy(), Z[3:].copy(), P[3:].copy() + 3.0, pts.copy()), {}))
+        add("StockholderWeight.from_arrays(..., background=0.0371).weights(points)", lambda: (lambda z, p, z2, p2, q: StockholderWeight.from_arrays(z, p, z2, p2, background=0.0371).weights(q), (Z[:3].copy(), P[:3].copy(), Z[3:].copy(), P[3:].copy() + 3.0, pts.copy()), {}))
         add("PromoleculeDensity.bb()", lambda: (lambda z, p: PromoleculeDensity((z, p)).bb(), (Z.copy(), P.copy()), {}))
     if prop == "C06":
         from chmpy.mc import marching_cubes
